@@ -349,6 +349,9 @@ def udp_send(port, data: bytes):
         s = socket.socket(socket.AF_INET, socket.SOCK_DGRAM)
         s.bind(("127.0.0.1", 0))
         _sender = (os.getpid(), s)
+        import atexit
+
+        atexit.register(s.close)
     _sender[1].sendto(data, ("127.0.0.1", port))
 
 
